@@ -506,7 +506,18 @@ def random_pi_project(rng):
         e = B(op, a, b)
         return U("BoolNegate", e) if rng.random() < 0.15 else e
 
+    def cell_fragment():
+        """wide store, narrower store inside the same cell, wide load of the cell (straight line)"""
+        a = stack_addr()
+        off = rng.choice([4, 4, 2, 1, 0, 6])
+        size = rng.choice([s for s in (4, 2, 1) if off + s <= 8])
+        inner = a if off == 0 else B("IntAdd", a, C(off))
+        wide = rng.choice([V(rng.choice(PI_REGS)), C(0x1111111122222222)])
+        narrow = rng.choice([SUBP(0, size, V(rng.choice(PI_REGS))), C(0x33333333, size)])
+        return [store(ids, a, wide), store(ids, inner, narrow), load(ids, var(rng.choice(PI_REGS)), a)]
+
     blocks = []
+    join_fragment = rng.random() < 0.2 and n >= 4
     for i, t in enumerate(tids):
         defs = []
         if i == 0:
@@ -518,6 +529,16 @@ def random_pi_project(rng):
             if rng.random() < 0.7:
                 defs.append(assign(ids, var(rng.choice(PI_REGS)), C(rng.choice([0, 1, 10]))))
         defs += [rand_def() for _ in range(rng.randrange(0, 5))]
+        if rng.random() < 0.12:
+            defs += cell_fragment()
+        if join_fragment and i in (1, 2):
+            # one branch sets RBX to a constant, the other to an unknown value; after the join it is added to a pointer-like parameter
+            if i == 1:
+                defs.append(assign(ids, var("RBX"), C(rng.choice([8, 16, 0]))))
+            else:
+                defs.append(rng.choice([assign(ids, var("RBX"), B("IntMult", V("RCX"), V("RDX"))), load(ids, var("RBX"), C(0x5000)), assign(ids, var("RBX"), B("IntAnd", V("RAX"), V("RCX")))]))
+        if join_fragment and i == 3:
+            defs.insert(0, rng.choice([assign(ids, var("RAX"), B("IntAdd", V("RDI"), V("RBX"))), assign(ids, var("RAX"), B("IntAdd", V("RBX"), V("RDI"))), assign(ids, var("RAX"), B("IntSub", V("RDI"), V("RBX")))]))
         if i == n - 1:
             if frame:
                 defs.append(assign(ids, var("RSP"), B("IntAdd", V("RSP"), C(frame))))
@@ -526,7 +547,11 @@ def random_pi_project(rng):
             r = rng.random()
             fwd = rng.choice(tids[i + 1:])
             anyt = rng.choice(tids[max(0, i - 2):]) if rng.random() < 0.45 else fwd
-            if r < 0.65:
+            if join_fragment and i == 0:
+                jm = [jmp(ids, "cbranch", target="blk_1", cond=cmp_expr()), jmp(ids, "branch", target="blk_2")]
+            elif join_fragment and i in (1, 2):
+                jm = [jmp(ids, "branch", target="blk_3")]
+            elif r < 0.65:
                 cond = V(rng.choice(["ZF", "CF", "SF"]), 1) if (rng.random() < 0.4 and any(d["k"] == "assign" and d["var"]["size"] == 1 for d in defs)) else cmp_expr()
                 if cond["k"] == "var":
                     # make sure the flag is defined in this block (as lifted code does)
